@@ -166,6 +166,50 @@ pub fn pumping(ev: Ev) -> Vec<String> {
             fit(format!("{}1{}", rep("-(", n), rep(")", n)), &mut out);
         }
     }
+    // every recursive position: each wrapper nested n times around `1`, alone and alternated pairwise
+    {
+        let wrappers: Vec<(&str, &str)> = vec![
+            ("(", ")"),
+            ("⌊", "⌋"),
+            ("⌈", "⌉"),
+            ("abs(", ")"),
+            ("pow(", ",2)"),
+            ("pow(2,", ")"),
+            ("min(1,", ")"),
+            ("min(", ",1)"),
+            ("avg(1,2,", ")"),
+            ("-", ""),
+            ("", "!"),
+            ("2*", ""),
+            ("", "^2"),
+            ("2(", ")"),
+            ("(", ")(2)"),
+            ("1+", ""),
+            ("", "²"),
+        ];
+        let nest = |ws: &[(&str, &str)], n: usize| -> String {
+            let mut pre = String::new();
+            let mut post = String::new();
+            for i in 0..n {
+                let (a, b) = ws[i % ws.len()];
+                pre.push_str(a);
+                post.insert_str(0, b);
+            }
+            format!("{}1{}", pre, post)
+        };
+        for (i, w) in wrappers.iter().enumerate() {
+            for &n in &[3usize, 6, 10, 12, 16, 24, 32, 48, 64, 100] {
+                fit(nest(&[*w], n), &mut out);
+            }
+            for (j, v) in wrappers.iter().enumerate() {
+                if i != j {
+                    for &n in &[4usize, 8, 12, 20, 32, 50] {
+                        fit(nest(&[*w, *v], n), &mut out);
+                    }
+                }
+            }
+        }
+    }
     // error sites followed by long tails of multi-byte characters at every byte alignment
     // (code that formats or slices "the rest of the input" must respect character boundaries)
     for prefix in ["1)", "2,", "1 2", "(1", "1+", "pow(1", "x", "1)(", "#", "2pi", "@(", "1.2.3"] {
@@ -188,9 +232,55 @@ pub fn pumping(ev: Ev) -> Vec<String> {
     out
 }
 
+/// long aggregate lists (21..64 operands, unsorted structured orders) with the placeholder at the
+/// front, in the middle and at the end — with the full placeholder pool this drives NaN, infinities and
+/// extreme values through the sort / fold of every aggregate at sizes where std switches algorithms
+pub fn agg_long(ev: Ev) -> Vec<String> {
+    let mut out = Vec::new();
+    if ev == Ev::Cpx {
+        return out;
+    }
+    let mut names: Vec<&str> = vec!["min", "max", "avg", "med", "median"];
+    if ev == Ev::I64 {
+        names.push("gcd");
+        names.push("lcm");
+    }
+    for &n in &[9usize, 16, 17, 20, 21, 22, 24, 32, 33, 40, 48, 64] {
+        let base: Vec<i64> = (0..n as i64).map(|i| (i * 37) % 101 - 50).collect();
+        let mut orders: Vec<Vec<i64>> = vec![base.clone(), base.iter().rev().cloned().collect()];
+        let mut rot = base.clone();
+        rot.rotate_left(n / 3);
+        orders.push(rot);
+        let mut sorted = base.clone();
+        sorted.sort();
+        let mut organ: Vec<i64> = sorted.iter().step_by(2).cloned().collect();
+        organ.extend(sorted.iter().skip(1).step_by(2).rev().cloned());
+        orders.push(organ);
+        for o in &orders {
+            for at_pos in [usize::MAX, 0, n / 2, n - 1] {
+                let args = o
+                    .iter()
+                    .enumerate()
+                    .map(|(i, v)| if i == at_pos { "@".to_string() } else if *v < 0 { format!("(-{})", -v) } else { v.to_string() })
+                    .collect::<Vec<_>>()
+                    .join(",");
+                for name in &names {
+                    let s = format!("{}({})", name, args);
+                    if s.chars().count() <= 256 {
+                        out.push(s);
+                    }
+                }
+            }
+        }
+    }
+    out
+}
+
 fn pumping_dom<D: Dom>(cx: &RunCtx, kinds: &[Kind]) {
     let inputs = pumping(D::EV);
     run_list::<D>(cx, "E-FAM pumping", &inputs, &D::pool_full(), kinds);
+    let inputs = agg_long(D::EV);
+    run_list::<D>(cx, "E-FAM long aggregate lists x placeholder pool", &inputs, &D::pool_full(), kinds);
 }
 
 pub fn pumping_all(cx: &RunCtx, kinds: &[Kind]) {
